@@ -22,13 +22,20 @@ from ..ref import dense, gls
 
 ID = 'C07'
 LEVEL = 'exploration'
-DECIDING = ['tap:least_squares', 'fits_judged', 'metamorphic_pairs_judged', 'corr_fit_judged', 'prior_string_gradients_judged']
+DECIDING = ['tap:least_squares', 'fits_judged', 'metamorphic_pairs_judged', 'corr_fit_judged', 'prior_string_gradients_judged', 'stored_state_monitored',
+            'alias_cases_judged', 'histories_judged', 'scale_pairs_judged', 'representations_judged', 'chained_fits_judged', 'boundary_cases_judged']
 RULE = ('cases: linear-basis models from {1, x, x^2, sin x, exp(-x), x2, x*x2} with 1-4 parameters, 1-3 data sets sharing parameters, '
         '1-2 abscissa dimensions, data on independent / shared / mixed / nested ensembles (AR noise, common modes, replicas, covariance inputs), '
         'gamma_method with S in {0,1,2,3} before the fit, priors none / list / dict of Obs / dict of strings / mixed on any subset, weights '
         'diagonal / estimated correlation / supplied inverse Cholesky factor, methods LM / migrad / Nelder-Mead / Powell, num_grad on/off, '
         'each fitted in a base and a transformed presentation (permutation, key order, containers, combined vs single), plus Corr.fit; '
-        'non-trivial: >= 2 parameters and at least one redundant data point and non-zero fluctuations compared; '
+        'hardening kinds: alias (the same Obs as several data points / as data point and prior / as prior of two parameters / in several keys), '
+        'history (two problems equal in shapes, abscissae, ensemble names, lists and options, different numbers, fitted A B A with class-level '
+        'analysis parameters set during the middle fit), scale (units of y times 1e-8 .. 1e8, initial guess scaled alike), representation '
+        '(strided / Fortran / int arrays, tuples, numpy strings, silent=False, resplot, qqplot, tol), chain (parameters of a fit with string priors '
+        'as priors of the next fit with the same #prior<i>_ prefixes; trap keys), boundary (points == parameters, one point, Corr.fit first == last); '
+        'around every fit: digest of the inputs incl. their stored analysis before/after, class-level parameters, no shared fluctuation arrays; '
+        'non-trivial: >= 2 parameters and at least one redundant data point and non-zero fluctuations compared (boundary / alias kinds: case judged); '
         'distinct = digest of (data, abscissae, model terms, priors, options)')
 ASSUMPTIONS = ['weights are the errors present on the data / priors when the fit is called (read by the harness immediately before the call)',
                'values are compared in units of the closed-form parameter error: 1e-6 + 2e-7 sqrt(cond chi2) (Levenberg-Marquardt with its forward-difference Jacobian), 2e-3 (Nelder-Mead, Powell), 5e-3 (migrad: edm < 1e-7)',
@@ -36,7 +43,9 @@ ASSUMPTIONS = ['weights are the errors present on the data / priors when the fit
                'problems with cond(A^T W A + P) > 1e8 are discarded (counted); non-converged derivative-free fits are counted, not judged',
                'replica means of the fitted parameters are not part of the property and are not compared',
                'chisquare/expected chisquare is judged for uncorrelated fits without priors only (not documented otherwise)',
-               'scipy.special.gammaincc / betainc for the chi-square and F survival functions']
+               'scipy.special.gammaincc / betainc for the chi-square and F survival functions',
+               'a fit must leave its inputs (data, stored errors / windows / parameters) and the class-level analysis parameters as they were, and an earlier Fit_result must not change when another fit runs (frozen weights)',
+               'scale sweep: the scaled problem gets the scaled initial guess; tags of the two known scale dependences are chosen from the witness (Powell and error of the best determined parameter combination < 1e-8; num_grad and a parameter error > 1e2)']
 BUDGET = {'quick': 40, 'thorough': 420}
 
 PE = None
@@ -100,7 +109,8 @@ def teardown(ctx):
 
 def plan(tier):
     m = 1 if tier == 'quick' else 12
-    return [('fit', 600 * m), ('corrfit', 96 * m)]
+    return [('fit', 300 * m), ('corrfit', 60 * m), ('alias', 60 * m), ('history', 36 * m), ('scale', 60 * m), ('representation', 70 * m),
+            ('chain', 36 * m), ('boundary', 42 * m)]
 
 
 # ------------------------------------------------------------------------------------------
@@ -216,11 +226,32 @@ def make_data(rng, means, mode, tier):
     return ys
 
 
+GM = {}      # id(obs) -> (obs, analysis parameters): needed to analyse scaled / cloned copies exactly like the original
+
+
+def gm(o, **kw):
+    try:
+        o.gamma_method(**kw)
+    except ValueError:
+        raise Skip() from None      # 'needs at least 8 samples' with tau_exp on a short chain
+    GM[id(o)] = (o, dict(kw))
+
+
+def rand_gm_kwargs(rng):
+    """Analysis parameters away from the defaults (S = 2, tau_exp = 0, N_sigma = 1)."""
+    kw = {'S': float(rng.choice([0, 1, 2, 3]))}
+    if rng.random() < 0.25:
+        kw['tau_exp'] = float(rng.choice([1.5, 4.0]))
+        kw['N_sigma'] = float(rng.choice([1, 2]))
+        kw['S'] = max(kw['S'], 1.0)
+    return kw
+
+
 def analyse(rng, objs):
     same = rng.random() < 0.6
-    S = float(rng.choice([0, 1, 2, 3]))
+    base = rand_gm_kwargs(rng)
     for o in objs:
-        o.gamma_method(S=S if same else float(rng.choice([0, 1, 2, 3])))
+        gm(o, **(base if same else rand_gm_kwargs(rng)))
         if not o.dvalue > 0:
             raise Skip()
 
@@ -248,12 +279,16 @@ def make_problem(ctx, rng, opts):
     # number of points
     exact = opts.get('exact', False)
     ntot = k if exact else k + int(rng.integers(1, 7))
+    if opts.get('npoints') is not None:
+        ntot = int(opts['npoints'])
     ntot = max(ntot, nsets)
     split = np.ones(nsets, dtype=int)
     for _ in range(ntot - nsets):
         split[int(rng.integers(0, nsets))] += 1
     for s, n in zip(sets, split):
         x1 = rng.uniform(0.2, 3.0, size=n)
+        if opts.get('integer_x'):
+            x1 = rng.permutation(np.arange(1, 13))[:n].astype(float) if n <= 12 else np.arange(1, n + 1, dtype=float)
         s['x'] = x1 if dim == 1 else np.array([x1, rng.uniform(-1.0, 2.0, size=n)])
     A = design_matrix([dict(s, y=[None] * (np.asarray(s['x']).shape[-1])) for s in sets], k, dim)
     means = A @ ptrue
@@ -311,7 +346,7 @@ def make_priors(rng, prob, kind, ys):
                 o = pe.Obs([val + err * np.sqrt(len(ys[0].idl[nm])) * rng.normal(size=len(ys[0].idl[nm]))], [nm], idl=[ys[0].idl[nm]])
             else:
                 o = pe.Obs([val + err * np.sqrt(n) * ar_noise(rng, n, float(rng.choice([0, 2])))], ['pr%d' % m])
-            o.gamma_method(S=float(rng.choice([0, 1, 2])))
+            gm(o, S=float(rng.choice([0, 1, 2])))
             spec.append((int(m), 'obs', o))
     prob['prior_spec'] = spec
     if kind == 'list':
@@ -463,8 +498,10 @@ def reference(prob, opts, dy, prior_err_at_call, Lcanon):
 
 
 def run_fit(ctx, x, y, f, pri, kw, method):
+    kw = dict(kw)
+    silent = kw.pop('silent', True)
     try:
-        return PE.fits.least_squares(x, y, f, priors=pri, silent=True, **kw)
+        return PE.fits.least_squares(x, y, f, priors=pri, silent=silent, **kw)
     except Exception as e:
         if method != 'Levenberg-Marquardt' and 'did not converge' in str(e):
             ctx.count('not_converged:' + method)
@@ -692,13 +729,12 @@ def run_fit_case(ctx, idx, rng):
     results = []
     infos = []
     for pres in (base_presentation(prob), variant_presentation(rng, prob, opts['variant'])):
-        x, y, f, pri, kw = build_call(prob, pres, opts, Lcanon)
-        res = run_fit(ctx, x, y, f, pri, kw, opts['method'])
+        mech = 'gls' if pres['name'] == 'base' else 'gls@' + pres['name']
+        res = guarded_fit(ctx, prob, build_call(prob, pres, opts, Lcanon), opts['method'], mech, perturb=bool((idx // 7) % 2))
         if res is None:
             results.append(None)
             infos.append(None)
             continue
-        mech = 'gls' if pres['name'] == 'base' else 'gls@' + pres['name']
         info = judge(ctx, prob, opts, res, sol, mech, '%s %s' % (pres['name'], '/'.join(str(c) for c in cellbase)))
         ctx.count('fits_judged')
         if any(kind == 'str' for _, kind, _ in prob['prior_spec']):
@@ -796,8 +832,564 @@ def run_corr_case(ctx, idx, rng):
                 'closed_form_p': sol['p'], 'library_p': [o.value for o in res.fit_parameters]})
 
 
-def run_case(ctx, kind, idx, rng):
-    if kind == 'fit':
-        run_fit_case(ctx, idx, rng)
+# ------------------------------------------------------------------------------------------
+# hardening: histories, aliasing, stored state, scale, representation, flags, name traps, boundaries
+def analysis_digest(o):
+    """Everything a fit could change on an input: the data and the stored results / parameters of the analysis."""
+    parts = [obs_digest(o), repr(getattr(o, '_dvalue', None)), repr(getattr(o, 'ddvalue', None))]
+    for a in ('e_dvalue', 'e_ddvalue', 'e_tauint', 'e_dtauint', 'e_windowsize', 'S', 'tau_exp', 'N_sigma', 'e_rho', 'e_drho', 'e_n_tauint'):
+        d = getattr(o, a, None)
+        if isinstance(d, dict):
+            parts.append([(k_, np.asarray(v).tobytes() if isinstance(v, np.ndarray) else repr(v)) for k_, v in sorted(d.items())])
+        else:
+            parts.append(repr(d))
+    return digest(*parts)
+
+
+def unique_inputs(prob):
+    seen, out = set(), []
+    for o in list(prob['ys']) + [v for _, kind, v in prob['prior_spec'] if kind == 'obs']:
+        if id(o) not in seen:
+            seen.add(id(o))
+            out.append(o)
+    return out
+
+
+class class_state:
+    """Class-level analysis parameters set to values that differ from everything stored on the inputs while the fit runs
+    (a fit that re-analyses its inputs would pick them up); the fit must leave them as they are."""
+
+    def __init__(self, inputs, active):
+        self.inputs, self.active = inputs, active
+
+    def state(self):
+        O = PE.Obs
+        return (O.S_global, dict(O.S_dict), O.tau_exp_global, dict(O.tau_exp_dict), O.N_sigma_global, dict(O.N_sigma_dict))
+
+    def __enter__(self):
+        O = PE.Obs
+        self.saved = self.state()
+        if self.active:
+            O.S_global, O.tau_exp_global, O.N_sigma_global = 7.0, 3.0, 2.0
+            for o in self.inputs:
+                for e in o.mc_names:
+                    O.S_dict[e] = 0.25
+                    O.tau_exp_dict[e] = 6.0
+                    O.N_sigma_dict[e] = 3.0
+        self.during = self.state()
+        return self
+
+    def __exit__(self, *a):
+        O = PE.Obs
+        self.after = self.state()
+        O.S_global, sd, O.tau_exp_global, td, O.N_sigma_global, nd = self.saved
+        for d_, v in ((O.S_dict, sd), (O.tau_exp_dict, td), (O.N_sigma_dict, nd)):
+            d_.clear()
+            d_.update(v)
+
+
+def guarded_fit(ctx, prob, call, method, mech, perturb=False, runner=None):
+    """Run one fit with the stored-state monitors around it: inputs (data + analysis results) and class-level parameters must be
+    what they were; the result must not share fluctuation arrays with the inputs or between parameters."""
+    inputs = unique_inputs(prob)
+    before = [analysis_digest(o) for o in inputs]
+    x, y, f, pri, kw = call
+    with class_state(inputs, perturb) as cs:
+        res = runner() if runner is not None else run_fit(ctx, x, y, f, pri, kw, method)
+    after = [analysis_digest(o) for o in inputs]
+    changed = [i for i, (a_, b_) in enumerate(zip(before, after)) if a_ != b_]
+    ctx.ev()
+    if changed:
+        o = inputs[changed[0]]
+        ctx.violation(mech + ':inputs-changed-by-fit', {'input': changed[0], 'names': list(o.names), 'dvalue_now': getattr(o, '_dvalue', None),
+                                                       'analysis_parameters': GM.get(id(o), (None, None))[1]})
+    ctx.require(cs.after == cs.during, mech + ':class-level-parameters-changed-by-fit', {'during': repr(cs.during)[:300], 'after': repr(cs.after)[:300]})
+    ctx.count('stored_state_monitored')
+    if perturb:
+        ctx.count('fits_with_class_level_parameters_set')
+    if res is not None:
+        ok = True
+        ps = list(res.fit_parameters)
+        for i, p_ in enumerate(ps):
+            for n in p_.deltas:
+                for o in inputs:
+                    if n in o.deltas and np.shares_memory(p_.deltas[n], o.deltas[n]):
+                        ok = False
+                for q in ps[i + 1:]:
+                    if n in q.deltas and np.shares_memory(p_.deltas[n], q.deltas[n]):
+                        ok = False
+        ctx.require(ok, mech + ':result-shares-fluctuation-array', None)
+    return res
+
+
+def result_record(res):
+    """Plain copy of a Fit_result (for 'an earlier result does not change when another fit runs')."""
+    return dict(params=[snap(o) for o in res.fit_parameters], chisquare=float(res.chisquare), dof=int(res.dof), p=float(res.p_value))
+
+
+def same_record(ctx, a, b, mech, what, rtol=0.0):
+    ok = ctx.close(a['chisquare'], b['chisquare'], mech + ':chisquare', what, rtol=max(rtol, 1e-15), scale=max(1.0, abs(a['chisquare'])))
+    ok &= ctx.equal(a['dof'], b['dof'], mech + ':dof', what)
+    for i, (pa, pb) in enumerate(zip(a['params'], b['params'])):
+        ok &= ctx.close(pa['value'], pb['value'], mech + ':value', '%s p[%d]' % (what, i), rtol=max(rtol, 1e-15))
+        ok &= ctx.equal(sorted(pa['chains']), sorted(pb['chains']), mech + ':chain-names', what)
+        for c in pa['chains']:
+            if c in pb['chains']:
+                ok &= ctx.close(pa['chains'][c][1], pb['chains'][c][1], mech + ':fluctuations', '%s p[%d] chain %s' % (what, i, c), rtol=max(rtol, 1e-15))
+        for n in pa['cov']:
+            if n in pb['cov']:
+                ok &= ctx.close(pa['cov'][n][1], pb['cov'][n][1], mech + ':covariance-gradient', '%s p[%d] %s' % (what, i, n), rtol=max(rtol, 1e-15))
+    return ok
+
+
+def solve_reference(ctx, prob, opts, Lcanon):
+    ys = prob['ys']
+    dy = np.array([float(o.dvalue) for o in ys])                  # weights present at call time
+    perr_call = [float(v.dvalue) if kind == 'obs' else None for _, kind, v in prob['prior_spec']]
+    sol = reference(prob, opts, dy, perr_call, Lcanon)
+    sol['dy'] = dy
+    if not np.isfinite(sol['cond']) or sol['cond'] > 1e8:
+        ctx.count('discarded_ill_conditioned')
+        raise Skip()
+    return sol
+
+
+def fit_and_judge(ctx, prob, opts, mech, what, Lcanon=None, pres=None, extra_kw=None, perturb=False, sol=None):
+    sol = sol or solve_reference(ctx, prob, opts, Lcanon)
+    x, y, f, pri, kw = build_call(prob, pres or base_presentation(prob), opts, Lcanon)
+    kw.update(extra_kw or {})
+    res = guarded_fit(ctx, prob, (x, y, f, pri, kw), opts['method'], mech, perturb)
+    if res is None:
+        return None, sol, None
+    info = judge(ctx, prob, opts, res, sol, mech, what)
+    ctx.count('fits_judged')
+    return res, sol, info
+
+
+def set_priors(prob, spec, as_list=False):
+    prob['prior_spec'] = spec
+    if not spec:
+        prob['priors'] = None
+    elif as_list:
+        prob['priors'] = [v for _, _, v in sorted(spec, key=lambda t: t[0])]
+        prob['prior_spec'] = sorted(spec, key=lambda t: t[0])
     else:
-        run_corr_case(ctx, idx, rng)
+        prob['priors'] = {m: v for m, _, v in spec}
+
+
+def resync(prob):
+    prob['ys'] = [o for s_ in prob['sets'] for o in s_['y']]
+
+
+def hard_options(idx, rng, **over):
+    o = dict(method=METHODS[idx % 4], num_grad=bool((idx // 4) % 4 == 3), weights='diag', priors='none', k=int(rng.integers(1, 5)),
+             nsets=int(rng.choice([1, 1, 2, 3])), dim=int(rng.choice([1, 1, 2])), mode=str(rng.choice(['indep', 'shared', 'nested'])),
+             exact=False, expected_chisquare=False, variant='base')
+    o.update(over)
+    return o
+
+
+# ---- item 4: the same object in several argument slots -----------------------------------------------------------------
+def run_alias_case(ctx, idx, rng):
+    variant = ['same-object-several-points', 'data-point-is-prior', 'same-prior-two-parameters', 'keys-share-y-objects', 'all'][idx % 5]
+    o = hard_options(idx // 5, rng, weights=['diag', 'supplied'][(idx // 5) % 2])
+    if variant in ('same-prior-two-parameters', 'all'):
+        o['k'] = int(rng.integers(2, 5))
+    if variant in ('keys-share-y-objects', 'all'):
+        o['nsets'] = int(rng.choice([2, 3]))
+    prob = make_problem(ctx, rng, o)
+    sets, k = prob['sets'], prob['k']
+    ys = prob['ys']
+    spec = []
+    if variant in ('same-object-several-points', 'all') and len(ys) >= 3:
+        for _ in range(int(rng.integers(1, 3))):
+            d = int(rng.integers(0, len(sets)))
+            if len(sets[d]['y']) >= 2:
+                i, j = rng.choice(len(sets[d]['y']), size=2, replace=False)
+                sets[d]['y'] = list(sets[d]['y'])
+                sets[d]['y'][j] = sets[d]['y'][i]
+    if variant in ('keys-share-y-objects', 'all'):
+        sets[1]['y'] = list(sets[1]['y'])
+        sets[1]['y'][int(rng.integers(0, len(sets[1]['y'])))] = sets[0]['y'][int(rng.integers(0, len(sets[0]['y'])))]
+    resync(prob)
+    ys = prob['ys']
+    if variant in ('data-point-is-prior', 'all'):
+        spec.append((int(rng.integers(0, k)), 'obs', ys[int(rng.integers(0, len(ys)))]))
+    if variant in ('same-prior-two-parameters', 'all'):
+        free = [m for m in range(k) if m not in [q[0] for q in spec]]
+        if len(free) >= 2:
+            m1, m2 = rng.choice(free, size=2, replace=False)
+            val = float(np.mean(prob['ptrue'][[m1, m2]]))
+            err = 0.5 * abs(prob['ptrue'][m1] - prob['ptrue'][m2]) + 0.1
+            P = PE.Obs([val + err * np.sqrt(40) * rng.normal(size=40)], ['prShared'])
+            gm(P, S=float(rng.choice([0, 1, 3])))
+            spec += [(int(m1), 'obs', P), (int(m2), 'obs', P)]
+    set_priors(prob, spec, as_list=False)
+    dy = np.array([float(v.dvalue) for v in ys])
+    Lcanon = supplied_factor(rng, dy) if o['weights'] == 'supplied' else None
+    ctx.cell('alias', variant, o['weights'], o['method'][:2])
+    res, sol, info = fit_and_judge(ctx, prob, o, 'alias:' + variant, 'alias %s %s' % (variant, o['method']), Lcanon=Lcanon, perturb=bool(idx % 2))
+    if res is not None:
+        ctx.count('alias_cases_judged')
+        if info and info['nontriv'] and k >= 2:
+            ctx.nontrivial.add(digest([obs_digest(v) for v in ys], variant, repr(sorted(o.items(), key=str))))
+    ctx.sample({'alias': variant, 'points': len(ys), 'distinct_objects': len(set(id(v) for v in ys)), 'priors': [(m, kind) for m, kind, _ in spec]})
+
+
+# ---- items 3, 5, 7: two problems that agree in everything a cheap key would look at, fitted A, B, A ----------------------
+def clone_obs(rng, o):
+    """Same chains, same configuration lists, same length - other numbers."""
+    names = [n for n in o.names if n not in o.cov_names]
+    samples = [o.r_values[n] + rng.permutation(np.asarray(o.deltas[n])) * float(rng.uniform(0.7, 1.3)) + float(rng.normal()) * o.dvalue for n in names]
+    c = PE.Obs(samples, names, idl=[o.idl[n] for n in names])
+    gm(c, **GM[id(o)][1])
+    return c
+
+
+def clone_problem(rng, prob):
+    mp = {}
+    for o in unique_inputs(prob):
+        mp[id(o)] = clone_obs(rng, o)
+    new = dict(prob)
+    new['sets'] = [dict(s_, y=[mp[id(v)] for v in s_['y']]) for s_ in prob['sets']]
+    resync(new)
+    spec = [(m, kind, mp[id(v)] if kind == 'obs' else v) for m, kind, v in prob['prior_spec']]
+    set_priors(new, spec, as_list=isinstance(prob['priors'], list))
+    return new
+
+
+def run_history_case(ctx, idx, rng):
+    o = hard_options(idx, rng, weights=WEIGHTS[idx % 3], priors=PRIORS[(idx // 3) % 5], method=METHODS[(idx // 15) % 4])
+    o['mode'] = 'shared' if o['weights'] == 'estimated' else str(rng.choice(['indep', 'shared', 'nested']))
+    A = make_problem(ctx, rng, o)
+    if any(v.cov_names for v in unique_inputs(A)):
+        raise Skip()
+    B = clone_problem(rng, A)
+    dyA = np.array([float(v.dvalue) for v in A['ys']])
+    Lcanon = supplied_factor(rng, dyA) if o['weights'] == 'supplied' else None
+    what = 'history %s/%s/%s' % (o['method'][:2], o['weights'], o['priors'])
+    ctx.cell('history', o['method'][:2], o['weights'], o['priors'])
+    order = [('A', A), ('B', B), ('A', A)] if idx % 2 == 0 else [('B', B), ('A', A), ('B', B)]
+    first = None
+    for step, (nm, prob) in enumerate(order):
+        res, sol, info = fit_and_judge(ctx, prob, o, 'history:%d' % step, '%s step %d (%s)' % (what, step, nm), Lcanon=Lcanon, perturb=(step == 1))
+        if res is None:
+            return
+        if step == 0:
+            first = (res, result_record(res))
+        elif step == 1:
+            same_record(ctx, result_record(first[0]), first[1], 'history:earlier-result-changed-by-later-fit', what)
+        else:
+            # string priors get fresh names: compare without them through the record of values / chains
+            same_record(ctx, result_record(res), first[1], 'history:refit-after-other-data-differs', what, rtol=1e-12)
+    ctx.count('histories_judged')
+    if A['k'] >= 2:
+        ctx.nontrivial.add(digest([obs_digest(v) for v in A['ys']], [obs_digest(v) for v in B['ys']], repr(sorted(o.items(), key=str))))
+    ctx.sample({'history': [n_ for n_, _ in order], 'options': {k_: o[k_] for k_ in ('method', 'weights', 'priors', 'mode')},
+                'ensembles': sorted(set(n_ for v in A['ys'] for n_ in v.names))})
+
+
+# ---- item 6: scale sweep -------------------------------------------------------------------------------------------------
+SCALES = [1e-8, 1e-4, 1e-2, 1e2, 1e4, 1e8]
+
+
+def scaled_problem(prob, c):
+    mp = {}
+    for v in unique_inputs(prob):
+        w = v * c
+        gm(w, **GM[id(v)][1])
+        mp[id(v)] = w
+    new = dict(prob)
+    new['sets'] = [dict(s_, y=[mp[id(v)] for v in s_['y']]) for s_ in prob['sets']]
+    resync(new)
+    new['ptrue'] = prob['ptrue'] * c
+    set_priors(new, [(m, kind, mp[id(v)]) for m, kind, v in prob['prior_spec']], as_list=isinstance(prob['priors'], list))
+    return new
+
+
+def run_scale_case(ctx, idx, rng):
+    c = SCALES[idx % len(SCALES)]
+    o = hard_options(idx // 6, rng, weights=WEIGHTS[(idx // 6) % 3], priors=['none', 'dict-obs', 'none', 'list-obs'][(idx // 18) % 4])
+    o['mode'] = 'shared' if o['weights'] == 'estimated' else str(rng.choice(['indep', 'shared', 'nested']))
+    pk = o['priors']
+    o['priors'] = 'none'
+    prob = make_problem(ctx, rng, o)
+    o['priors'] = pk
+    if pk != 'none':
+        k = prob['k']
+        mask = list(range(k)) if pk == 'list-obs' else rng.permutation(k)[:int(rng.integers(1, k + 1))].tolist()
+        spec = []
+        for m in mask:
+            err = abs(prob['ptrue'][m]) * float(rng.uniform(0.03, 0.5)) + 0.02
+            P = PE.Obs([prob['ptrue'][m] + err * np.sqrt(30) * rng.normal(size=30)], ['pr%d' % m])
+            gm(P, S=float(rng.choice([0, 1, 2])))
+            spec.append((int(m), 'obs', P))
+        set_priors(prob, spec, as_list=(pk == 'list-obs'))
+    guess = prob['ptrue'] * (1 + 0.2 * rng.normal(size=prob['k']))
+    dy = np.array([float(v.dvalue) for v in prob['ys']])
+    L1 = supplied_factor(rng, dy) if o['weights'] == 'supplied' else None
+    what = 'scale %g %s/%s/%s' % (c, o['method'][:2], o['weights'], pk)
+    ctx.cell('scale', '%g' % c, o['method'][:2], o['weights'])
+    o1 = dict(o, priors='none' if pk == 'none' else 'dict-obs', initial_guess=guess.tolist())
+    r1, sol1, info1 = fit_and_judge(ctx, prob, o1, 'scale:unit', what + ' unit', Lcanon=L1)
+    sp = scaled_problem(prob, c)
+    oc = dict(o1, initial_guess=(guess * c).tolist())
+    # two causes of scale dependence are known and get tags of their own (a different failure in these cells keeps another suffix):
+    #  * scipy's Powell brackets along unit directions starting with [0, 1] and Brent's line search has an absolute floor of 1e-11 on
+    #    the line parameter, i.e. in the units of the parameters: results are wrong once the parameter errors approach 1e-11 .. 1e-9;
+    #  * numdifftools chooses steps ~ log1p(|x|), which do not grow with the parameters: for large parameters (errors >> 1) the second
+    #    differences of chi-square drown in rounding and the propagated errors of num_grad=True are wrong.
+    # The tag is decided from the witness: the method / differentiation in use AND the magnitude regime of the closed-form parameter
+    # errors of the scaled problem in which the cause operates; everything else keeps the generic tag.
+    Lc = None if L1 is None else L1 / c
+    solc0 = solve_reference(ctx, sp, oc, Lc)
+    mech = 'scale:scaled'
+    known_cause = False
+    sig_min = 1.0 / float(np.sqrt(np.max(np.linalg.eigvalsh(solc0['M']))))     # error of the best determined combination of parameters
+    if o['method'] == 'Powell' and sig_min < 1e-8:
+        mech, known_cause = 'scale:small-parameters:Powell-line-search-in-absolute-units', True
+    elif o['num_grad'] and float(np.max(solc0['perr'])) > 1e2:
+        mech, known_cause = 'scale:large-parameters:num_grad-steps-do-not-scale', True
+    rc, solc, infoc = fit_and_judge(ctx, sp, oc, mech, what + ' scaled', Lcanon=Lc, sol=solc0)
+    if r1 is None or rc is None or info1 is None or infoc is None:
+        return
+    if known_cause:
+        ctx.count('scale_pairs_judged')
+        ctx.count('scale_pairs_in_cells_with_known_cause')
+        return
+    # the scaled problem is the exact image of the unit one: p -> c p, fluctuations -> c fluctuations, chi2 / dof / p-values unchanged
+    mech = 'scale:not-covariant'
+    vt = 2 * val_tol(o['method'], sol1)
+    for i in range(prob['k']):
+        ctx.close(rc.fit_parameters[i].value / c, r1.fit_parameters[i].value, mech + ':value', '%s p[%d]' % (what, i), rtol=0.0,
+                  atol=vt * sol1['perr'][i] + 1e-11 * abs(sol1['p'][i]))
+        sa, sb = snap(r1.fit_parameters[i]), snap(rc.fit_parameters[i])
+        if ctx.equal(sorted(sa['chains']), sorted(sb['chains']), mech + ':chain-names', what):
+            for ch in sa['chains']:
+                ctx.close(sb['chains'][ch][1] / c, sa['chains'][ch][1], mech + ':fluctuations', '%s p[%d] chain %s' % (what, i, ch), rtol=0.0, atol=2 * info1['fl_tols'][i])
+    ct = 1e-8 if o['method'] == 'Levenberg-Marquardt' else 4e-4
+    ctx.close(rc.chisquare, r1.chisquare, mech + ':chisquare', what, rtol=ct, scale=max(1.0, sol1['chi2']))
+    ctx.equal(int(rc.dof), int(r1.dof), mech + ':dof', what)
+    ctx.close(rc.p_value, r1.p_value, mech + ':p_value', what, rtol=0.0, atol=1e-3 if o['method'] != 'Levenberg-Marquardt' else 1e-7)
+    ctx.count('scale_pairs_judged')
+    if prob['k'] >= 2:
+        ctx.nontrivial.add(digest([obs_digest(v) for v in prob['ys']], c, repr(sorted(o.items(), key=str))))
+    ctx.sample({'scale': c, 'unit_p': [v.value for v in r1.fit_parameters], 'scaled_p_over_c': [v.value / c for v in rc.fit_parameters],
+                'chi2': [float(r1.chisquare), float(rc.chisquare)]})
+
+
+# ---- items 1, 2: representation of the inputs, flags and forwarded options ------------------------------------------------
+def represent(rng, call, how, prob):
+    """Other representations of the same arguments."""
+    x, y, f, pri, kw = call
+    kw = dict(kw)
+
+    def view(a):
+        a = np.asarray(a, dtype=float)
+        big = np.zeros(a.shape[:-1] + (2 * a.shape[-1],))
+        big[..., ::2] = a
+        return big[..., ::2]                   # strided, non-contiguous
+
+    def conv_x(a):
+        a = np.asarray(a, dtype=float)
+        if how == 'views':
+            return view(a)
+        if how == 'fortran':
+            return np.asfortranarray(a) if a.ndim > 1 else a[::-1][::-1]
+        if how == 'int-array' and np.all(a == np.round(a)):
+            return a.astype(np.int32 if rng.random() < 0.5 else np.int64)
+        if how == 'tuple':
+            return tuple(a.tolist()) if a.ndim == 1 else tuple(tuple(r) for r in a.tolist())
+        return a
+
+    def conv_y(l):
+        arr = np.empty(2 * len(l), dtype=object)
+        arr[::2] = list(l)
+        return arr[::2] if how in ('views', 'fortran') else (tuple(l) if how == 'tuple' else list(l))
+    if isinstance(x, dict):
+        x = {k_: conv_x(v) for k_, v in x.items()}
+        y = {k_: conv_y(v) for k_, v in y.items()}
+    else:
+        x, y = conv_x(x), conv_y(y)
+    if 'inv_chol_cov_matrix' in kw:
+        L, keys = kw['inv_chol_cov_matrix']
+        kw['inv_chol_cov_matrix'] = [np.asfortranarray(L) if how == 'fortran' else view(L) if how == 'views' else L, list(keys)]
+    if isinstance(pri, dict):
+        pri = {m: (np.str_(v) if isinstance(v, str) else v) for m, v in pri.items()}
+    elif isinstance(pri, list):
+        pri = [np.str_(v) if isinstance(v, str) else v for v in pri]
+        if how == 'tuple':
+            arr = np.empty(len(pri), dtype=object)
+            for i, v in enumerate(pri):
+                arr[i] = v
+            pri = arr
+    return x, y, f, pri, kw
+
+
+def run_flags_case(ctx, idx, rng):
+    how = ['views', 'fortran', 'int-array', 'tuple', 'flags', 'flags-plots', 'tol'][idx % 7]
+    o = hard_options(idx // 7, rng, weights=WEIGHTS[(idx // 7) % 3], priors=PRIORS[(idx // 21) % 5])
+    o['mode'] = 'shared' if o['weights'] == 'estimated' else str(rng.choice(['indep', 'shared', 'nested']))
+    if how == 'int-array':
+        o['integer_x'] = True
+        o['dim'] = 1
+    if how == 'flags-plots':
+        o['dim'] = 1
+    if how == 'tol':
+        o['method'] = METHODS[1 + (idx // 7) % 3]
+    prob = make_problem(ctx, rng, o)
+    if how == 'flags-plots' and any(len(s_['y']) < 2 for s_ in prob['sets']):
+        raise Skip()
+    dy = np.array([float(v.dvalue) for v in prob['ys']])
+    Lcanon = supplied_factor(rng, dy) if o['weights'] == 'supplied' else None
+    sol = solve_reference(ctx, prob, o, Lcanon)
+    what = 'representation %s %s/%s/%s' % (how, o['method'][:2], o['weights'], o['priors'])
+    ctx.cell('representation', how, o['weights'], o['priors'])
+    base_call = build_call(prob, base_presentation(prob), o, Lcanon)
+    r0 = guarded_fit(ctx, prob, base_call, o['method'], 'representation:base')
+    if r0 is None:
+        return
+    info0 = judge(ctx, prob, o, r0, sol, 'representation:base', what)
+    call = represent(rng, base_call, how, prob)
+    x, y, f, pri, kw = call
+    if how in ('flags', 'flags-plots'):
+        kw['silent'] = False
+    if how == 'flags-plots':
+        kw['resplot'] = True
+        kw['qqplot'] = True
+    if how == 'tol':
+        kw['tol'] = 1e-6 if o['method'] == 'migrad' else 1e-13      # tighter than the defaults: forwarded to the minimiser
+    r1 = guarded_fit(ctx, prob, (x, y, f, pri, kw), o['method'], 'representation:' + how)
+    if how == 'flags-plots':
+        import matplotlib.pyplot as plt
+        plt.close('all')
+    if r1 is None:
+        return
+    judge(ctx, prob, o, r1, sol, 'representation:' + how, what)
+    ctx.count('fits_judged', 2)
+    if info0 is not None:
+        if how in ('flags', 'flags-plots'):
+            # output / plots switched on: the same arithmetic, the same numbers
+            same_record(ctx, result_record(r1), result_record(r0), 'representation:%s-changes-result' % how, what, rtol=1e-12)
+        else:
+            # another memory layout / container / tighter minimiser tolerance: the same fit within what the minimiser resolves
+            cross_compare(ctx, prob, o, r0, r1, sol, info0, 'representation:%s-changes-result' % how, what)
+    ctx.count('representations_judged')
+    if prob['k'] >= 2:
+        ctx.nontrivial.add(digest([obs_digest(v) for v in prob['ys']], how, repr(sorted(o.items(), key=str))))
+
+
+# ---- item 8: name traps -----------------------------------------------------------------------------------------------------
+def run_chain_case(ctx, idx, rng):
+    """Chained fits: parameters of a first fit with 'value(err)' priors (covariance inputs '#prior<i>_...') are priors of a second fit
+    that has string priors of its own with the same '#prior<i>_' prefixes; dictionary keys with prefix / case / digit traps."""
+    o1 = hard_options(idx, rng, priors=['dict-str', 'mixed', 'list'][idx % 3], weights=['diag', 'supplied'][(idx // 3) % 2], method='Levenberg-Marquardt', num_grad=False)
+    o1['k'] = int(rng.integers(2, 5))
+    p1 = make_problem(ctx, rng, o1)
+    if not any(kind == 'str' for _, kind, _ in p1['prior_spec']):
+        raise Skip()
+    dy = np.array([float(v.dvalue) for v in p1['ys']])
+    L1 = supplied_factor(rng, dy) if o1['weights'] == 'supplied' else None
+    r1, sol1, info1 = fit_and_judge(ctx, p1, o1, 'chain:first', 'chain first', Lcanon=L1)
+    if r1 is None:
+        return
+    for v in r1.fit_parameters:
+        gm(v, S=float(rng.choice([0, 1, 2])))
+    o2 = hard_options(idx // 2, rng, priors='none', weights=WEIGHTS[(idx // 2) % 3], k=int(rng.integers(2, 5)))
+    o2['mode'] = 'shared' if o2['weights'] == 'estimated' else str(rng.choice(['indep', 'shared']))
+    if idx % 2:
+        o2['nsets'] = int(rng.choice([2, 3]))
+    p2 = make_problem(ctx, rng, o2)
+    if idx % 2:
+        # keys whose sorted order differs from insertion order, sharing prefixes, mixing case and digit counts
+        trap = rng.permutation(['a', 'A', 'a1', 'a10', 'a2', 'aa', 'Z', 'b', 'B1'])[:len(p2['sets'])].tolist()
+        for s_, key in zip(p2['sets'], trap):
+            s_['key'] = key
+        p2['sets'] = sorted(p2['sets'], key=lambda s_: s_['key'])
+        resync(p2)
+        p2['A'] = design_matrix(p2['sets'], p2['k'], p2['dim'])
+    k2 = p2['k']
+    spec = []
+    used = rng.permutation(k2)
+    # previous results as priors (they carry '#prior<i>_' covariance inputs), on parameters whose index may differ from i
+    src = [i for i, v in enumerate(r1.fit_parameters) if any(n.startswith('#prior') for n in v.cov_names)]
+    if not src:
+        raise Skip()
+    i0 = int(rng.choice(src))
+    spec.append((int(used[0]), 'obs', r1.fit_parameters[i0]))
+    # own string priors: one with the same index as a '#prior<i>_' name inside the Obs prior when possible
+    idxs = sorted(set(int(n.split('_')[0][len('#prior'):]) for n in r1.fit_parameters[i0].cov_names if n.startswith('#prior')))
+    cand = [m for m in idxs if m < k2 and m != int(used[0])] or [int(m) for m in used[1:2]]
+    for m in cand[:2]:
+        err = abs(p2['ptrue'][m]) * float(rng.uniform(0.05, 0.5)) + 0.02
+        spec.append((int(m), 'str', prior_string(rng, p2['ptrue'][m] + err * float(rng.normal()), err)))
+    set_priors(p2, spec)
+    dy2 = np.array([float(v.dvalue) for v in p2['ys']])
+    L2 = supplied_factor(rng, dy2) if o2['weights'] == 'supplied' else None
+    o2['priors'] = 'mixed'
+    ctx.cell('chain', o1['priors'], o2['weights'], 'trap-keys' if idx % 2 else 'plain-keys')
+    pres = base_presentation(p2)
+    if idx % 2 and len(p2['sets']) > 1:
+        pres['order'] = [rng.permutation(len(p2['sets'])).tolist() for _ in range(3)]
+    r2, sol2, info2 = fit_and_judge(ctx, p2, o2, 'chain:second', 'chain second (prior = earlier result with %s)' % sorted(r1.fit_parameters[i0].cov_names),
+                                    Lcanon=L2, pres=pres)
+    if r2 is not None:
+        ctx.count('chained_fits_judged')
+        ctx.nontrivial.add(digest([obs_digest(v) for v in p2['ys']], [obs_digest(v) for v in p1['ys']], idx % 2))
+        ctx.sample({'chain': 'second fit', 'keys': [s_['key'] for s_ in p2['sets']], 'priors': [(m, kind, v if kind == 'str' else sorted(v.names)) for m, kind, v in spec]})
+
+
+# ---- item 9: boundary values ----------------------------------------------------------------------------------------------------
+def run_boundary_case(ctx, idx, rng):
+    variant = ['points==parameters', 'one-point-more', 'one-point-one-parameter-prior', 'one-point-two-parameters-two-priors',
+               'one-point-one-parameter', 'Corr.fit-first==last', 'Corr.fit-first==last-prior'][idx % 7]
+    if variant.startswith('Corr.fit'):
+        pe = PE
+        T, n = int(rng.integers(6, 12)), int(rng.integers(30, 60))
+        content = [pe.Obs([1.0 + 0.3 * t + 0.05 * np.sqrt(n) * rng.normal(size=n)], ['ens'], idl=[range(1, n + 1)]) for t in range(T)]
+        corr = pe.Corr(content)
+        corr.gamma_method(S=float(rng.choice([0, 1, 2])))
+        a = int(rng.integers(0, T))
+        f = lambda p, x: p[0] + 0 * x
+        spec, kw = [], {}
+        if variant.endswith('prior'):
+            spec = [(0, 'str', prior_string(rng, 1.0 + 0.3 * a, 0.2))]
+            kw['priors'] = {0: spec[0][2]}
+        if idx % 2:
+            corr.set_prange([0, T - 1])
+        res = corr.fit(f, [a, a], silent=True, **kw)
+        ys = [corr.content[a][0]]
+        sets = [{'key': '', 'terms': [(0, '1')], 'x': np.array([float(a)]), 'y': ys}]
+        prob = dict(k=1, dim=1, sets=sets, ptrue=np.array([1.0]), A=design_matrix(sets, 1, 1), ys=ys)
+        set_priors(prob, spec)
+        o = dict(method='Levenberg-Marquardt', num_grad=False, weights='diag', priors='dict-str' if spec else 'none', k=1)
+        sol = solve_reference(ctx, prob, o, None)
+        judge(ctx, prob, o, res, sol, 'boundary:' + variant, '%s [%d,%d]' % (variant, a, a))
+        ctx.count('fits_judged')
+    else:
+        k, npts, pk = {'points==parameters': (int(rng.integers(1, 5)), None, 'none'), 'one-point-more': (int(rng.integers(1, 5)), None, 'none'),
+                       'one-point-one-parameter-prior': (1, 1, str(rng.choice(['dict-obs', 'dict-str', 'list']))),
+                       'one-point-two-parameters-two-priors': (2, 1, 'list'), 'one-point-one-parameter': (1, 1, 'none')}[variant]
+        o = hard_options(idx // 7, rng, k=k, nsets=1 if npts == 1 else int(rng.choice([1, 2])), priors=pk, weights='diag')
+        o['npoints'] = npts if npts is not None else (k if variant == 'points==parameters' else k + 1)
+        if o['method'] in ('Nelder-Mead', 'Powell') and k == 1 and npts == 1 and pk == 'none':
+            o['method'] = 'Levenberg-Marquardt'
+        prob = make_problem(ctx, rng, o)
+        if len(prob['ys']) != o['npoints']:
+            raise Skip()
+        res, sol, info = fit_and_judge(ctx, prob, o, 'boundary:' + variant, '%s %s' % (variant, o['method']))
+        if res is None:
+            return
+    ctx.cell('boundary', variant)
+    ctx.count('boundary_cases_judged')
+    ctx.nontrivial.add(digest(variant, [obs_digest(v) for v in prob['ys']]))
+    ctx.sample({'boundary': variant, 'points': len(prob['ys']), 'parameters': prob['k'], 'priors': len(prob['prior_spec']), 'dof': int(res.dof),
+                'chisquare': float(res.chisquare), 'p_value': float(res.p_value)})
+
+
+
+def run_case(ctx, kind, idx, rng):
+    GM.clear()
+    runner = {'fit': run_fit_case, 'corrfit': run_corr_case, 'alias': run_alias_case, 'history': run_history_case, 'scale': run_scale_case,
+              'representation': run_flags_case, 'chain': run_chain_case, 'boundary': run_boundary_case}[kind]
+    runner(ctx, idx, rng)
